@@ -448,6 +448,19 @@ def random_case(rnd, cid):
             'spgiven': spgiven, 'rxgiven': rxgiven, 'iagiven': iagiven, 'ops': ops}
 
 
+def _tags(case, where, ev):
+    """small facts about a failing observation, for the known-finding matchers"""
+    t = {'src': case['src'], 'mode': where, 'spgiven': bool(case['spgiven'])}
+    if ev.get('raised'):
+        t['exc'] = ev.get('exc', '?')
+    elif ev.get('ev') == 'organize':
+        # no returned phase lists any species (although the call was given species)
+        t['no_species_listed'] = bool(case['spgiven']) and not any(q['species'] for q in ev.get('res', []))
+    elif ev.get('ev') == 'helper':
+        t['object_keys'] = any(k[0] == 'obj' for k, _ in ev.get('res', []))
+    return t
+
+
 def exercised(case, events):
     """what a case puts in front of the clauses (vacuity accounting)"""
     u = universe(case)
@@ -576,8 +589,8 @@ def run(ctx):
             key = (tid, 'ReplayState', m['mode'])
             if key not in seen:
                 seen.add(key)
-                found.append(('ReplayState', case, {'src': case['src'], 'mode': m['mode'],
-                                                    'spgiven': case['spgiven']}, m))
+                found.append(('ReplayState', case,
+                              _tags(case, m['mode'], {'ev': 'organize', 'res': m['got'], 'raised': False}), m))
         traces.append((tid, events))
         for key, n in exercised(case, events).items():
             ctx.count('exercised_' + key, n)
@@ -598,8 +611,7 @@ def run(ctx):
         by_case.setdefault((tid, clause, where), []).append(idx)
     for (tid, clause, where), idxs in sorted(by_case.items()):
         ev = traces[tid][1][idxs[0]]
-        found.append((clause, cases[tid],
-                      {'src': cases[tid]['src'], 'mode': where, 'spgiven': cases[tid]['spgiven']},
+        found.append((clause, cases[tid], _tags(cases[tid], where, ev),
                       {'event_indices': idxs[:10], 'event': ev}))
     # report clause by clause in turn, so that the first replay files printed cover every failing clause
     queues = {}
